@@ -537,7 +537,8 @@ bool RawDataQueryFilter :: Matches(ConstMessageRef & msg, const DataNode *) cons
       else return false;
    }
 
-   const uint8 * hisBytes  = (const uint8 *) hb;
+   static const uint8 _noBytes = 0;  // so that an empty (NULL-buffer) assumed-default never hands NULL to memcmp()/MemMem()
+   const uint8 * hisBytes  = hb ? (const uint8 *) hb : &_noBytes;
    const uint32 myNumBytes = _value() ? _value()->GetNumBytes() : 0;
    const uint8 * myBytes   = _value() ? _value()->GetBuffer()   : NULL;
    const uint32 clen       = muscleMin(myNumBytes, hisNumBytes);
